@@ -1,4 +1,5 @@
 import OsmVerif.Lemmas.Geo
+import OsmVerif.Lemmas.GeoClosed
 import OsmVerif.Model.Convert
 /-!
 # C16 — multipolygon assembly: every piece used once, glued at shared points, nothing lost or invented
@@ -209,6 +210,26 @@ theorem orientation_annotation (ms : List Seg) (o : Int) (ho : o = 1 ∨ o = -1)
   intro s _
   rcases ho with rfl | rfl <;> rcases hm with h | h <;> simp [h] <;> split <;> simp
 
+/-! ## rings are closed again -/
+
+/-- **every group `Join` builds from cut rings is closed**: if every end point of the pieces is shared by exactly two
+    piece ends, no group is left open — for every number of rings and pieces, any cut positions, any directions
+    and any order of the members -/
+theorem join_groups_closed (segs : List Seg) (h : FreshInput segs) (hd : DegR (compact segs)) :
+    ∀ g ∈ join segs, msFirst g = msLast g := by
+  unfold join
+  exact joinAux_closed (compact segs).length (compact segs) [] (Nat.le_refl _) (compact_fresh segs h) hd
+    (by intro ms hms; cases hms)
+
+/-- the condition holds for pieces cut from vertex-disjoint simple rings — every cut point is where exactly one piece
+    ends and exactly one begins (start points pairwise distinct, and as a multiset equal to the stop points) —
+    and it survives reversing any pieces and listing them in any order -/
+theorem cut_rings_condition (segs : List Seg) (starts stops : List P)
+    (hs : segs.map startOf = starts.map some) (ht : segs.map stopOf = stops.map some)
+    (hperm : starts.Perm stops) (hnd : starts.Nodup) (flip : Seg → Bool) (shuffled : List Seg)
+    (hsh : (segs.map fun s => if flip s then s.rev else s).Perm shuffled) : DegR shuffled :=
+  degR_perm _ _ hsh (degR_rev segs flip (degR_of_starts_stops segs starts stops hs ht hperm hnd))
+
 /-! ## non-vacuity: a square cut into three pieces (one reversed) and a two-piece triangle, shuffled -/
 def exSegs : List Seg := [
   Seg.mk' 0 0 [(4,4),(0,4),(0,0)],
@@ -218,5 +239,13 @@ def exSegs : List Seg := [
   Seg.mk' 4 0 [(1,1),(1,2),(2,1)]]
 example : (join exSegs).map lineOf = [[(1,1),(1,2),(2,1),(1,1)], [(4,0),(4,4),(0,4),(0,0),(4,0)]] := by decide
 example : FreshInput exSegs := by intro s hs; simp [exSegs] at hs; rcases hs with rfl | rfl | rfl | rfl | rfl <;> rfl
+example : DegR (compact exSegs) := by
+  intro p
+  have hL : (compact exSegs).flatMap ends = [(4,4),(0,0),(4,0),(0,0),(1,1),(2,1),(4,0),(4,4),(1,1),(2,1)] := by decide
+  rw [hL]
+  by_cases h : p ∈ [((4,4) : P),(0,0),(4,0),(0,0),(1,1),(2,1),(4,0),(4,4),(1,1),(2,1)]
+  · simp only [List.mem_cons, List.not_mem_nil, or_false] at h
+    rcases h with rfl | rfl | rfl | rfl | rfl | rfl | rfl | rfl | rfl | rfl <;> decide
+  · left; exact List.count_eq_zero.mpr h
 
 end OsmVerif.Props.C16
